@@ -49,6 +49,7 @@ def bin_obligations(chk):
 
 def zoom_obligations(chk):
     n, m, q = z3.Ints("n m q")
+    n2, m2, q2 = z3.Ints("n2 m2 q2")          # second axis: arrays and targets need not be square
     a, bb = z3.Ints("a b")
     for fn in ("zoom", "zoom_rbs"):
         for dt, npdt in (("float", None), ("complex", "complex128"), ("complex", "complex64")):
@@ -59,11 +60,13 @@ def zoom_obligations(chk):
                     holder = {}
 
                     def run(it, fn=fn, dt=dt, npdt=npdt, order=order, scalar_size=scalar_size):
-                        it.ctx.assume(z3.And(n >= 2, m >= 2))
-                        arr = sym_arr("array", [n, n], dtype=dt, prov={"array"})
+                        it.ctx.assume(z3.And(n >= 2, m >= 2, n2 >= 2, m2 >= 2))
+                        if scalar_size:
+                            it.ctx.assume(m2 == m)
+                        arr = sym_arr("array", [n, n2], dtype=dt, prov={"array"})
                         arr.np_dtype = npdt
                         holder["arr"] = arr
-                        return it, it.call_repo(IP, fn, [arr, m if scalar_size else (m, m)], {"order": order})
+                        return it, it.call_repo(IP, fn, [arr, m if scalar_size else (m, m2)], {"order": order})
 
                     def post(pr, fn=fn, dt=dt, order=order):
                         it, out = pr.value
@@ -72,16 +75,18 @@ def zoom_obligations(chk):
                         goals = [("rank2", z3.BoolVal(ok))]
                         if not ok:
                             return goals
-                        goals.append(("shape=(new,new)", z3.And(zi(out.shape[0]) == m, zi(out.shape[1]) == m)))
+                        goals.append(("shape=(new0,new1)", z3.And(zi(out.shape[0]) == m, zi(out.shape[1]) == m2)))
                         nodes = npmodel.Arr([n], lambda idx: idx[0], "int")
+                        nodes2 = npmodel.Arr([n2], lambda idx: idx[0], "int")
                         coord = lambda t: z3.ToReal(t) * z3.ToReal(n - 1) / z3.ToReal(m - 1)      # linspace(0, n-1, m)[t]
-                        inb = z3.And(a >= 0, a < m, bb >= 0, bb < m)
+                        coord2 = lambda t: z3.ToReal(t) * z3.ToReal(n2 - 1) / z3.ToReal(m2 - 1)
+                        inb = z3.And(a >= 0, a < m, bb >= 0, bb < m2)
                         parts = [("real", s_real), ("imag", s_imag)] if dt == "complex" else [("value", lambda v: v)]
                         val = out.get([a, bb])
                         splines = {}
                         for nm, proj in parts:
                             zpart = npmodel.map1(it, arr, proj, "float") if dt == "complex" else arr
-                            splines[nm] = npmodel.SplineObj(it, nodes, nodes, zpart, order, order)
+                            splines[nm] = npmodel.SplineObj(it, nodes, nodes2, zpart, order, order)
                         if dt == "complex":
                             okc = isinstance(val, Cx)
                             goals.append(("complex-result", z3.BoolVal(okc)))
@@ -93,16 +98,16 @@ def zoom_obligations(chk):
                         for nm, _ in parts:
                             S = splines[nm].S
                             goals.append(("out[a,b].%s=spline(order %d through the %s samples)(row a, col b of the new grid)" % (nm, order, nm),
-                                          z3.Implies(inb, got[nm] == S(coord(a), coord(bb)))))
+                                          z3.Implies(inb, got[nm] == S(coord(a), coord2(bb)))))
                         # consequences with the node-interpolation contract of the spline (library contract instance)
                         i_, j_ = z3.Ints("i_ j_")
                         for nm, proj in parts:
                             sp_ = splines[nm]
                             node = sp_.node_axiom(i_, j_)
                             src = zr(proj(arr.get([i_, j_])))
-                            old = z3.And(i_ >= 0, i_ < n, j_ >= 0, j_ < n)
-                            goals.append(("same-size-returns-the-input.%s" % nm, z3.Implies(z3.And(m == n, old, a == i_, bb == j_), got[nm] == src), {"hyps": [node]}))
-                            goals.append(("old-nodes-pass-through.%s" % nm, z3.Implies(z3.And(q >= 1, m - 1 == q * (n - 1), old, a == q * i_, bb == q * j_), got[nm] == src), {"hyps": [node]}))
+                            old = z3.And(i_ >= 0, i_ < n, j_ >= 0, j_ < n2)
+                            goals.append(("same-size-returns-the-input.%s" % nm, z3.Implies(z3.And(m == n, m2 == n2, old, a == i_, bb == j_), got[nm] == src), {"hyps": [node]}))
+                            goals.append(("old-nodes-pass-through.%s" % nm, z3.Implies(z3.And(q >= 1, q2 >= 1, m - 1 == q * (n - 1), m2 - 1 == q2 * (n2 - 1), old, a == q * i_, bb == q2 * j_), got[nm] == src), {"hyps": [node]}))
                         return goals
                     verify(chk, "%s[%s,order=%d%s]" % (fn, npdt or dt, order, ",scalar-size" if scalar_size else ""), IP + ":" + fn, run, post, clause="zoom",
                            replay=lambda mm, fn=fn, order=order, npdt=npdt: {"fn": fn, "order": order, "dtype": npdt or "float64", "n": num(mm.eval(n, model_completion=True)), "m": num(mm.eval(m, model_completion=True))},
@@ -123,7 +128,7 @@ def azimuthal_obligations(chk):
 
     for variant in ("constant", "bounded"):
         def run(it, variant=variant):
-            it.ctx.assume(z3.And(size >= 2, size % 2 == 0))
+            it.ctx.assume(size >= 2)          # even or odd
             if variant == "constant":
                 data = const_arr([size, size], cval)
             else:
@@ -147,8 +152,9 @@ def azimuthal_obligations(chk):
             if len(sums) != 2:
                 return goals
             num_, den_ = sums[0], sums[1]
-            # ring of radius i .. i+1 contains the pixel (size/2, size/2 + i): the denominator is >= 1
-            o1, h1 = sigma.ge_term(it.ctx, den_, [half, half + i])
+            # ring of radius i .. i+1 contains the pixel (size//2, size//2 + i) for even sizes (centre at distance sqrt(0.25 + (i+0.5)^2)) and the pixel
+            # (size//2, size//2 + i + 1) for odd sizes (centre at distance exactly i + 1): the denominator is >= 1
+            o1, h1 = sigma.ge_term(it.ctx, den_, [half, half + i + size % 2])
             goals += [("ring-non-empty." + nm, z3.Implies(inb, g)) for nm, g in o1]
             goals.append(("ring-non-empty", z3.Implies(inb, den_ >= 1), {"hyps": [h1]}))
             if variant == "constant":
